@@ -502,7 +502,20 @@ static CORE_HOOKS: steel::verif::Hooks = steel::verif::Hooks {
 // steel-rc hooks at VM level: no sub-operation scheduling (values are dropped
 // while slot locks are held), real frees, thread life cycle only.
 
-fn rc_access(_site: u32, _addr: usize) {}
+fn rc_access(site: u32, addr: usize) {
+    // Simulated threads never reach a scheduling point inside steel-rc here, so
+    // at any moment at most one of them is inside the queue map: a lock that
+    // `enqueue` would have to wait for is held by the calling thread itself.
+    if site == steel_rc::verif::site::ENQUEUE_TID && sched::is_sim_thread() && steel_rc::verif::enqueue_would_block(addr) {
+        report::violation(
+            "C16/self-deadlock/enqueue-inside-explicit-merge",
+            format!(
+                "t{}: a destructor run by run_explicit_merge dropped a reference owned by another thread; enqueue needs the queue-map lock that the merge itself is holding: the thread blocks forever",
+                sched::current().unwrap_or(99)
+            ),
+        );
+    }
+}
 fn rc_dealloc(_addr: usize) -> bool {
     false
 }
